@@ -30,6 +30,16 @@ CLAIMED = {
             "Seeded search over presets x store_* flags x dimensions 0..130 x histories with divergences of every cause and transformation updates; every draw's statistics are compared with the declared schema.",
             "Schema = what Settings::stat_* report for the same math object; density stub trusted.",
             "DESIGN.md §5 C16"),
+    "C07": (ENGINE_A, "exploration",
+            "seeded simulation of adaptive chains; acceptance histories of every kind produced by the environment (fault injection, ExactNormal on a standard normal, always-diverging densities); refinement of the reported step sizes against a reference dual-averaging / Adam recursion",
+            "The reference recursion (ten lines: clamped iterate, count^-k weighted average; Adam) is fed the observed per-draw acceptance statistics - plain before the late phase, symmetric in it, the late phase decided from the hook-H4 window counters - and must reproduce step_size_bar and step_size of every warmup draw to 1e-8 (within the jitter band when jitter is on), re-synchronising on the result of a step-size search; every step size is finite and positive and the iterate never exceeds max_step_size; a closed-loop batch checks the post-warmup acceptance against a wide band around the target.",
+            "Monotonicity is a property of the reference recursion (argued in DESIGN.md); the bracket property of the search is not judged (DESIGN.md §5 C07). Runs whose first update is clamped cannot be initialised and are skipped (counted).",
+            "DESIGN.md §5 C07"),
+    "C08": (ENGINE_A, "exploration",
+            "seeded simulation of adaptive chains on Gaussian and degenerate targets with fault-injected rejected draws; oracle on the reported transformation statistics",
+            "Diag/LowRank presets with store_mass_matrix/store_transformed on: on diagonal Gaussians (condition number up to 1e12) every update built from >=4 accepted draws with non-degenerate spread recovers scales and mean to 1e-6 and the whitened gradient equals minus the whitened position; for every history (flat coordinates, piecewise-linear Laplace coordinates with constant gradient, scales 1e+-150, stuck chains, all-divergent windows) every reported scale / eigenvalue / mean is finite and positive and a coordinate whose estimate is invalid (no gradient variance) keeps its previous scale.",
+            "Low-rank exactness on covariances fitting the rank is not asserted. Windows with NaN/inf entries are not reachable through a chain and are not fed directly.",
+            "DESIGN.md §5 C08"),
     "C09": (ENGINE_A, "exploration",
             "seeded simulation of adaptive chains with fault-injected rejected draws; window invariants checked on the strategy's counters (hook H4) after every draw, step-size search re-run seen at the Math seam",
             "Seeded search over num_tune 3..300, early/final window fractions, early/main switch frequencies, update frequency, growth factors 1..3, Diag/LowRank x NUTS/MCLMC and histories with every mixture of accepted and rejected draws (divergences injected by the density stub, hard targets). After every draw: the estimator counts move only as the history allows; a switch happens only with a full window AND room for the next (observed) window before the final step-size window; no switch is missed when even the largest admissible next window fits; foreground-background is constant between switches (no stale draws); windows are early-sized in the early phase and grow geometrically afterwards; nothing is touched in the final window; the first transformation change re-runs the step-size search and later ones do not.",
